@@ -68,7 +68,8 @@ var probes = map[string][]string{
 		"wfault_site.space", "wfault_site.raw-text",
 		"rfault_pos.in-tag", "rfault_pos.in-comment", "rfault_pos.in-text", "rfault_pos.at-eof", "rfault_with_data",
 		"combined_fired", "adapter_path_cases"},
-	"C15": {},
+	"C15": {"cli_execs.sanitise_ugc", "cli_execs.sanitise_html_email", "two_chunk_splits", "early_eof_execs", "adapter_path_execs",
+		"blank_inputs", "multi_read_execs", "long_inputs", "writer.sw", "writer.plain", "writer.buf", "writer.builder"},
 	"C13": {},
 	"C17": {},
 }
